@@ -67,6 +67,15 @@ func (pConn *PFCPConn) RemoveSession(session PFCPSession) {
 	session.metrics.Delete()
 	pConn.SaveSessions(session.metrics)
 
+	// Return the tunnel endpoint IDs the UPF chose for this session
+	if pConn.upf != nil && pConn.upf.fteidGenerator != nil {
+		for _, p := range session.pdrs {
+			if p.UPAllocateFteid {
+				pConn.upf.fteidGenerator.FreeID(p.tunnelTEID)
+			}
+		}
+	}
+
 	if err := pConn.store.DeleteSession(session.localSEID); err != nil {
 		logger.PfcpLog.Errorf("failed to delete PFCP session from store: %v", err)
 	}
